@@ -9,7 +9,11 @@ import (
 
 	"github.com/dolthub/go-mysql-server/memory"
 	"github.com/dolthub/go-mysql-server/sql"
+	"github.com/dolthub/go-mysql-server/sql/expression"
 	"github.com/dolthub/go-mysql-server/sql/plan"
+	"github.com/dolthub/go-mysql-server/sql/planbuilder"
+	"github.com/dolthub/go-mysql-server/sql/transform"
+	"github.com/dolthub/go-mysql-server/verifharness/hx/eng"
 	"github.com/dolthub/go-mysql-server/verifharness/hx"
 )
 
@@ -144,6 +148,78 @@ func extract(a hx.ExtractArgs) error {
 	_, wrapperIsCheck := wrappedTab.(sql.CheckTable)
 	lf.DefBool("memoryTableIsCheckTable", plainIsCheck)
 	lf.DefBool("virtualColumnTableIsCheckTable", wrapperIsCheck)
-	_ = fmt.Sprint
+	// run time: which generated columns does the freshly compiled planner schedule for recomputation (derived SETs)
+	// when a statement assigns only the base column of a chain of generated columns / an unrelated column?
+	ds, err := derivedSets()
+	if err != nil {
+		return err
+	}
+	lf.DefStringList("derivedSetsOfChain", ds)
 	return lf.Write(a.Out)
+}
+
+// derivedSets plans UPDATE and INSERT … ON DUPLICATE KEY UPDATE statements against
+// t(c0 PK, c1, c2, c3 AS (c1*2), c4 AS (c3+1), c5 AS (c4+c2), c6 AS (c2*10)) with the real planbuilder and lists, per
+// statement, the targets of the derived (not explicit) SET expressions in plan order.
+func derivedSets() ([]string, error) {
+	e := eng.New("d")
+	ctx := e.Ctx()
+	if r := e.Query(ctx, "CREATE TABLE t (c0 INT PRIMARY KEY, c1 INT, c2 INT, c3 INT AS (c1*2) STORED, c4 INT AS (c3+1) STORED, "+
+		"c5 INT AS (c4+c2) STORED, c6 INT AS (c2*10) STORED)"); r.Class() != "ok" {
+		return nil, fmt.Errorf("derivedSets: create table: %s", r.Class())
+	}
+	targets := func(ue *plan.UpdateExprs) (string, error) {
+		if ue == nil {
+			return "", fmt.Errorf("derivedSets: no update expressions in the plan")
+		}
+		var names []string
+		for _, x := range ue.DerivedUpdateExprs() {
+			sf, ok := x.(*expression.SetField)
+			if !ok {
+				return "", fmt.Errorf("derivedSets: derived update expression is a %T, not a SetField", x)
+			}
+			gf, ok := sf.LeftChild.(*expression.GetField)
+			if !ok {
+				return "", fmt.Errorf("derivedSets: target of a derived SET is a %T", sf.LeftChild)
+			}
+			names = append(names, strings.ToLower(gf.Name()))
+		}
+		return fmt.Sprintf("%d explicit; derived %s", len(ue.ExplicitUpdateExprs()), strings.Join(names, " ")), nil
+	}
+	var out []string
+	for _, q := range []string{
+		"UPDATE t SET c1 = 10",
+		"UPDATE t SET c2 = 4 WHERE c0 = 1",
+		"UPDATE t SET c0 = 7",
+		"INSERT INTO t (c0, c1) VALUES (3, 50) ON DUPLICATE KEY UPDATE c1 = 9",
+	} {
+		qctx := eng.SameSession(ctx)
+		qctx.SetCurrentDatabase("d")
+		node, _, _, _, err := planbuilder.New(qctx, e.E.Analyzer.Catalog, e.E.EventScheduler).Parse(q, nil, false)
+		if err != nil {
+			return nil, fmt.Errorf("derivedSets: %s: %v", q, err)
+		}
+		var got string
+		var ierr error
+		found := false
+		transform.Inspect(node, func(n sql.Node) bool {
+			switch n := n.(type) {
+			case *plan.UpdateSource:
+				got, ierr = targets(n.UpdateExprs)
+				found = true
+			case *plan.InsertInto:
+				got, ierr = targets(n.OnDupExprs)
+				found = true
+			}
+			return !found
+		})
+		if ierr != nil {
+			return nil, ierr
+		}
+		if !found {
+			return nil, fmt.Errorf("derivedSets: %s: no UpdateSource / InsertInto node in the plan", q)
+		}
+		out = append(out, q+" => "+got)
+	}
+	return out, nil
 }
